@@ -165,14 +165,19 @@ class Ctx:
         self.c[key] += n
 
     # -- assertions
-    def check(self, cond, what, witness=None, relaxed=False):
-        """Assert cond for every input following the current path. Returns True when proved."""
+    def check(self, cond, what, witness=None, relaxed=False, learn=False):
+        """Assert cond for every input following the current path. Returns True when proved.
+        learn: a proved condition is added to the path's solver context as a lemma for later queries (sound: it was just proved)."""
         eng = core.ENG
         self.c["checks"] += 1
         self.reach("assert")
         ok, m = eng.valid(cond)
         if ok:
             self.c["proved"] += 1
+            if learn:
+                c = cond.t if isinstance(cond, SBool) else cond
+                if not isinstance(c, bool):
+                    eng.add(c)
             return True
         self.violation(what, witness=witness, model=m, relaxed=relaxed)
         return False
